@@ -254,8 +254,18 @@ def splice(ctx, sv):
                         inc = True
             # inside a loop that re-tests the next slot
             inloop = any(bb in blk for blk in natural_loops(b).values())
-            ok = idx_ok and main and clr and inc and inloop
-            det = 'buffer taken from slot current_idx: %s; written to the main writer: %s; then cleared (%s) and current_idx incremented (%s), in a loop over consecutive slots: %s' % (idx_ok, main, clr, inc, inloop)
+            # ... and the *next* thing that happens after a splice is the test of the following slot: no write, no
+            # missing-field decision and no return is reachable from the splice without passing the slot test again
+            retest = False
+            if te and gm:
+                gmb = {b2 for b2, t2 in gm}
+                events = {x for x, t2 in b.calls() if ((t2.get('callee') or '') in ('std::io::Write::write_all',) or cname(t2).endswith('write_varint')
+                                                        or strip_generics(cname(t2)).endswith('WriteVarint::write_varint'))}
+                events |= {si['bb'] for si in b.switches_on_adt(SCHEMA_NODE)}
+                events |= {x for x in b.live_blocks() if b.term(x)['k'] == 'return'}
+                retest = must_pass(b, te[0], events - gmb, gmb)
+            ok = idx_ok and main and clr and inc and inloop and retest
+            det = 'buffer taken from slot current_idx: %s; written to the main writer: %s; then cleared (%s) and current_idx incremented (%s), in a loop over consecutive slots: %s; the following slot is tested before anything else happens: %s' % (idx_ok, main, clr, inc, inloop, retest)
         ctx.ob('SPLICE', nm, ok, short_loc(b.span), det)
     # occupied slot => Err (duplicate field)
     ok = False
@@ -295,9 +305,11 @@ def end_rule(ctx):
     if not ({'Null', 'Union'} <= set(kinds)):
         return
     # default arm errs
-    other = [r for r in regs if len(r.variants) > 5]
-    ctx.ob('END', 'non-nullable-missing-errs', bool(other) and all(all_paths_err(e, r.entry, avoid=[h for h in natural_loops(e)]) for r in other), short_loc(e.span),
-           'a missing field whose node is neither null nor a union returns Err')
+    # the match that has explicit Null and Union arms: its default edge (every other kind) errs
+    outer = [si for si in e.switches_on_adt(SCHEMA_NODE) if flt(si['place']) and {'Null', 'Union'} <= set(si.get('variants', {}))]
+    okd = len(outer) == 1 and bool(outer[0].get('otherwise_variants')) and all_paths_err(e, outer[0]['otherwise'], avoid=[h for h in natural_loops(e)])
+    ctx.ob('END', 'non-nullable-missing-errs', okd, short_loc(e.span),
+           'a missing field whose node is neither null nor a union returns Err (default edge of the match with explicit Null and Union arms): %s' % okd)
     # Null arm writes nothing
     rnull = kinds['Null']
     wr = [bb for bb in rnull.blocks if e.term(bb)['k'] == 'call' and ((e.term(bb).get('callee') or '').endswith('write_varint') or (e.term(bb).get('callee') or '') == 'std::io::Write::write_all')]
@@ -377,4 +389,39 @@ def present(ctx, fi, sv):
             if (t.get('resolved') or t.get('callee')) == sv.id:
                 io, no = origin(mv, t['args'][2]), origin(mv, t['args'][3])
                 ok = 'field_idx' in io.fields and 'schema_node' in no.fields and 'key_hint' in (io.fields | set(deep_fields(mv, t['args'][2], 3)))
+    # map presentation, both entry points: the (index, node) pair is exactly what the key lookup returned
+    def key_lookup_calls(b):
+        out = []
+        for bb, t in b.calls():
+            if (t.get('callee') or '').endswith('ser::Serialize::serialize') and len(t['args']) > 1:
+                o = origin(b, t['args'][1])
+                if any(a[0] == 'agg' and str(a[1]).endswith('FindFieldIndexSerializer') for a in o.atoms):
+                    out.append(t)
+        return out
+
+    def from_lookup(b, op, ks):
+        o = origin(b, op)
+        return any(c is k for c in o.calls for k in ks) and 'current_idx' not in o.fields and not o.has_arith()
+    me = fn_by_label(f, '<' + SM + 'SerializeMapAsRecordOrMapOrDuration as serde_core::ser::SerializeMap>::serialize_entry')
+    oke = False
+    if me is not None:
+        ctx.touched(me)
+        ks = key_lookup_calls(me)
+        for bb, t in me.calls():
+            if (t.get('resolved') or t.get('callee')) == sv.id and ks:
+                oke = from_lookup(me, t['args'][2], ks) and from_lookup(me, t['args'][3], ks)
+    ctx.ob('PRESENT', 'map-entry-uses-key-lookup', oke, short_loc(me.span) if me else None,
+           'serialize_entry hands serialize_record_value the (index, node) returned by the key lookup, nothing else: %s' % oke)
+    mk = fn_by_label(f, '<' + SM + 'SerializeMapAsRecordOrMapOrDuration as serde_core::ser::SerializeMap>::serialize_key')
+    okk = False
+    if mk is not None:
+        ctx.touched(mk)
+        ks = key_lookup_calls(mk)
+        for bb in sorted(mk.live_blocks()):
+            for st in mk.stmts(bb):
+                if 'assign' in st and st['rv']['k'] == 'agg' and st['rv'].get('variant') == 'KeyLocation' and ks:
+                    fl = st['rv']['fields']
+                    okk = from_lookup(mk, st['rv']['ops'][fl.index('field_idx')], ks) and from_lookup(mk, st['rv']['ops'][fl.index('schema_node')], ks)
+    ctx.ob('PRESENT', 'map-key-records-key-lookup', okk, short_loc(mk.span) if mk else None,
+           'serialize_key records the (index, node) returned by the key lookup in KeyHint::KeyLocation: %s' % okk)
     ctx.ob('PRESENT', 'map-value-uses-key-location', ok, short_loc(mv.span) if mv else None, 'serialize_value passes the (index, node) recorded by serialize_key: %s' % ok)
